@@ -220,4 +220,40 @@ theorem refWire_stream (E : Str.Cfg) (hs : E.s = 5 ∨ E.s = 8) (hid : E.id < 65
     | succ n ih => simp only [Stop.add, ih, Stop.succ]
   simp only [hadd, glue, List.append_nil, List.drop_left']
 
+/-- … behind a record the stream parser passes over silently (for the Data stream of a Filter: the
+terminating record of its Stdin stream, which the parser never consumed) -/
+theorem refWire_stream' (E : Str.Cfg) (hs : E.s = 5 ∨ E.s = 8) (hid : E.id < 65536) (pre : Rec) (hpre : pre.WF)
+    (hpc : rclass E pre = .noise) (hpo : owed (some E.id) E.mc pre = []) {content : Bytes}
+    {body : List Rec} (hb : Body E.id E.s content body) (e : Rec) (he : e.WF)
+    (hcls : rclass E e = .endStream) (rest : List Rec) (hrest : ∀ r ∈ rest, r.WF) :
+    refWire E (serAll (pre :: (body ++ e :: rest))) =
+      ⟨content, owedStream E.id E.s E.mc body, .eos, serAll (e :: rest)⟩ := by
+  have hwf : ∀ r ∈ pre :: (body ++ e :: rest), r.WF := by
+    intro r hr
+    rcases List.mem_cons.1 hr with rfl | hr
+    · exact hpre
+    rcases List.mem_append.1 hr with hr | hr
+    · exact body_wf hid hb r hr
+    · rcases List.mem_cons.1 hr with rfl | hr
+      · exact he
+      · exact hrest r hr
+  have := refWire_of_presentation E hwf (tail := []) (nextRec_short (by simp))
+  rw [List.append_nil] at this
+  have htl : refRun E (e :: rest) = ⟨[], [], .endOfStream 0⟩ := by simp only [refRun, hcls]
+  have hadd : ∀ n, Stop.add n (.endOfStream 0) = .endOfStream n := by
+    intro n
+    induction n with
+    | zero => rfl
+    | succ n ih => simp only [Stop.add, ih, Stop.succ]
+  have hrun : refRun E (pre :: (body ++ e :: rest)) =
+      ⟨content, owedStream E.id E.s E.mc body, .endOfStream (body.length + 1)⟩ := by
+    have h1 : refRun E (pre :: (body ++ e :: rest)) =
+        ⟨(refRun E (body ++ e :: rest)).content, owed (some E.id) E.mc pre ++ (refRun E (body ++ e :: rest)).out,
+          (refRun E (body ++ e :: rest)).stop.succ⟩ := by
+      simp only [refRun, hpc]
+    rw [h1, hpo, refRun_body_app hs hb, htl]
+    simp only [hadd, List.append_nil, List.nil_append, Stop.succ]
+  rw [this, hrun]
+  simp only [glue, List.append_nil, List.drop_succ_cons, List.drop_left']
+
 end Fcgi.E2E
